@@ -1,11 +1,13 @@
 #!/bin/bash
 # Runs every confirmed seed under /verif/seeded against the check of its property (quick tier) and writes seeded/RESULTS.md
+# ONLY="C01 C08" OUT=file restricts to some properties and writes the rows elsewhere (used by tools/matrix_parallel.sh)
 cd /verif
-out=seeded/RESULTS.md
+out=${OUT:-seeded/RESULTS.md}
 echo "| seed | property | quick check | first violation |" > $out.tmp
 echo "|---|---|---|---|" >> $out.tmp
 for d in $(ls -d seeded/C*_* | sort); do
   id=$(basename $d); prop=${id%%_*}
+  if [ -n "$ONLY" ] && ! echo " $ONLY " | grep -q " $prop "; then continue; fi
   if ! grep -qw $prop tools/claimed.txt; then echo "| $id | $prop | (check not claimed yet) | |" >> $out.tmp; continue; fi
   res=$(tools/run_seed.sh $id $prop quick 2>&1 | grep '^seed ' | head -1)
   rc=$(echo "$res" | sed -n 's/.*rc=\([0-9]*\).*/\1/p')
